@@ -31,7 +31,7 @@ ANCHORS = [
     "raggedshape.py::ViewBase.ravel_multi_index", "raggedshape.py::ViewBase.unravel_multi_index", "raggedshape.py::ViewBase.index_array",
     "raggedshape.py::RaggedShape.size",
 ]
-CTORS = ["rows", "pyrows", "mixedrows", "flat", "flat_nplens", "flatlist", "shape_tuple", "raggedshape", "flat_strided", "matrix"]
+CTORS = ["rows", "tuplerows", "pyrows", "mixedrows", "flat", "flat_nplens", "flatlist", "shape_tuple", "raggedshape", "flat_strided", "matrix"]
 FLOOR_TAGS = ["ctor:" + c for c in CTORS] + ["kind:b", "kind:i", "kind:u", "kind:f", "v:small", "v:extreme", "v:nonfinite",
                                              "reject", "saveload", "matrix-roundtrip", "order:F", "order:T", "order:strided", "norows", "allempty", "e-first", "e-last", "e-mid", "e-consec", "e-none", "big-repr", "lensdtype:narrow", "lensdtype:sum-overflows"]
 FLOOR_MONITORS = ["c01:readback", "c01:geometry", "c01:reject", "c01:result-independent", "inv:ragged"]
@@ -60,6 +60,8 @@ def build(case, flat, rows):
     lens, ctor, dt = case["lens"], case["ctor"], np.dtype(case["dtype"])
     if ctor == "rows":
         return RA([r.copy() for r in rows], dtype=dt), True
+    if ctor == "tuplerows":        # the rows in a tuple instead of a list
+        return RA(tuple(r.copy() for r in rows), dtype=dt), True
     if ctor == "pyrows":
         return RA([r.tolist() for r in rows]), False   # dtype is numpy's default for the python values
     if ctor == "mixedrows":
@@ -134,6 +136,8 @@ def run(case):
         ("lengths", lambda: np.asarray(ra.lengths).tolist(), lambda g: g == lens, lens),
         ("dtype", lambda: ra.dtype, lambda g: exp_dt is None or g == exp_dt, exp_dt),
         ("iter", lambda: list(iter(ra)), lambda g: len(g) == n and all(eqrow(a, b, dtype=exp_dt is not None and dtype_fixed) for a, b in zip(g, rows)), pyrows),
+        ("reversed", lambda: list(reversed(ra)), lambda g: len(g) == n and all(eqrow(a, b, dtype=exp_dt is not None and dtype_fixed) for a, b in zip(g, rows[::-1])), pyrows[::-1]),
+        ("len(list)", lambda: [len(x) for x in list(ra)], lambda g: g == lens, lens),
         ("tolist", lambda: ra.tolist(), lambda g: len(g) == n and all(eqrow(np.array(a, dtype=dt), b) for a, b in zip(g, rows)) and [len(x) for x in g] == lens, pyrows),
         ("ravel", lambda: ra.ravel(), lambda g: eqrow(g, flat, dtype=dtype_fixed), flat),
         ("astype(float64)", lambda: ra.astype(np.float64), lambda g: isinstance(g, RA) and g.dtype == np.float64 and np.asarray(g.lengths).tolist() == lens and eqrow(g.ravel(), flat.astype(np.float64)), flat.astype(np.float64)),
